@@ -671,9 +671,9 @@ def _interp_internal_from_weight(arr, axis, left, right, lhs_idx, rhs_idx, frac,
     vright = arr[rhs_idx]
     newval = vleft + _frac*(vright - vleft)
 
-    # fill values
-    newval[left_idx] = left
-    newval[right_idx] = right
+    # fill values (None: the value at the edge, as numpy.interp does)
+    newval[left_idx] = arr[0] if left is None else left
+    newval[right_idx] = arr[-1] if right is None else right
 
     # transpose back
     if arr.ndim > 1:
